@@ -1,5 +1,6 @@
 """C04 - processes started together see one committed snapshot; listing
 order is moot (all permutations of insertion orders)."""
+import copy
 import itertools
 
 import numpy as np
@@ -327,6 +328,12 @@ def run_job(job, acc):
     if job[0] == 'migrate':
         run_migrate(job, acc)
         return
+    if job[0] == 'kill':
+        run_kill_perm(job, acc)
+        return
+    if job[0] == 'swap':
+        run_swap(job, acc)
+        return
     tss, n_steps, script = job[:3]
     gate = job[3] if len(job) > 3 else None
     base = None
@@ -354,6 +361,145 @@ def run_job(job, acc):
         acc.sample({'tss': tss, 'steps': n_steps, 'script': script,
                     'permutations': sum(1 for _ in perms(len(tss),
                                                          n_steps))})
+
+
+# ----------------------------------------------------------------------
+# a compartment is deleted in the batch in which its process's update to
+# a variable OUTSIDE it falls due: deletion and contribution commute, so
+# everything outside the compartment is the same for every listing order
+
+def kill_jobs(ctx):
+    out = []
+    for vts in (0.5, 1, 2, 3):
+        for kill_at in (0, 1, 2):
+            out.append(('kill', vts, kill_at))
+    return out
+
+
+def run_kill_perm(job, acc):
+    _, vts, kill_at = job
+    case = {'family': 'kill', 'job': job}
+    names = ('killer', 'c', 'p1')
+    victim = sched.probe_spec('v', vts, 'always')
+    other = sched.probe_spec('p1', 1, 'always')
+    killer = {'cls': 'P', 'pid': 'killer', 'ts': 1, 'log_states': False,
+              'schema': {'root': {}},
+              'update': {'$n': {kill_at: {'root': {'_delete': ['c']}}},
+                         '$else': {}}}
+    parts = {'c': {'v': victim}, 'p1': other, 'killer': killer}
+    topo = {'c': {'v': {'priv': ('sv',), 'shared': ('..', 'shared')}},
+            'p1': {'priv': ('s1',), 'shared': ('shared',)},
+            'killer': {'root': ()}}
+    base = None
+    for order in itertools.permutations(names):
+        spec = {'processes': {k: copy.deepcopy(parts[k]) for k in order},
+                'topology': {k: topo[k] for k in order},
+                'script': [('update', 4)]}
+        ex = worlds.execute(spec, guard_factory=sched.lasso_guard)
+        acc.case(key=(job, order), outcome='kill')
+        acc.validated += 1
+        if ex.error:
+            acc.violate(fw.violation(
+                'C04.crash', 'kill:' + sched.crash_fp(ex),
+                f'{job} order {order}: unexpected {ex.error[2]!r}', case))
+            return
+        rows = []
+        for (T, data, snap) in worlds.history_rows(ex):
+            outside = {k: v for k, v in data.items() if k != 'c'}
+            rows.append((T, fw.jdump(_norm_snapshot(outside))))
+        if base is None:
+            base = (order, rows)
+        elif rows != base[1]:
+            diff = next((a, b) for a, b in itertools.zip_longest(
+                base[1], rows) if a != b)
+            acc.violate(fw.violation(
+                'C04.permutation', 'deletion-and-outside-update-do-not-'
+                'commute',
+                f'victim timestep {vts}, deletion issued at t={kill_at}: '
+                f'listed as {order} the state outside the deleted '
+                f'compartment differs from listing {base[0]}: {diff}',
+                case))
+            return
+
+
+# ----------------------------------------------------------------------
+# two steps of ONE layer that swap two variables keep sharing one snapshot
+# in the daughters of a division that copies the mother's steps and flow
+
+def swap_jobs(ctx):
+    return [('swap', order, phase, via)
+            for order in (('swap_a', 'swap_b'), ('swap_b', 'swap_a'))
+            for phase in (1, 2)
+            for via in ('divide', 'generate', 'none')]
+
+
+def run_swap(job, acc):
+    _, order, phase, via = job
+    case = {'family': 'swap', 'job': job}
+    acc.case(key=job, outcome='swap')
+    acc.validated += 1
+    setv = lambda d: {'_default': d, '_updater': 'set', '_emit': True}  # noqa
+    defs = {
+        'swap_a': {'cls': 'S', 'pid': 'swap_a', 'log_states': False,
+                   'schema': {'in': {'a': setv('A'), 'b': setv('B')}},
+                   'update': {'in': {'a': {'$state': ('in', 'b')}}}},
+        'swap_b': {'cls': 'S', 'pid': 'swap_b', 'log_states': False,
+                   'schema': {'in': {'a': setv('A'), 'b': setv('B')}},
+                   'update': {'in': {'b': {'$state': ('in', 'a')}}}}}
+    inner_steps = {k: defs[k] for k in order}
+    inner_flow = {k: [] for k in order}
+    inner_topo = {k: {'in': ()} for k in order}
+    if via == 'divide':
+        upd = {'agents': {'_divide': {'mother': 'm', 'daughters': [
+            {'key': 'm0'}, {'key': 'm1'}]}}}
+    elif via == 'generate':
+        upd = {'agents': {'_generate': [{
+            'key': 'g', 'processes': {},
+            'steps': {'$probes': copy.deepcopy(inner_steps)},
+            'flow': copy.deepcopy(inner_flow),
+            'topology': copy.deepcopy(inner_topo),
+            'initial_state': {}}]}}
+    else:
+        upd = {}
+    spec = {
+        'processes': {'ticker': {
+            'cls': 'P', 'pid': 'ticker', 'ts': 1, 'log_states': False,
+            'schema': {'tk': {'n': dict(sched.NUM)}},
+            'update': {'tk': {'n': 1}}}},
+        'steps': {'agents': {'m': inner_steps},
+                  'div': {'cls': 'S', 'pid': 'div', 'log_states': False,
+                          'schema': {'agents': {}},
+                          'update': {'$n': {phase: upd}, '$else': {}}}},
+        'flow': {'agents': {'m': inner_flow}, 'div': []},
+        'topology': {'ticker': {'tk': ('tks',)},
+                     'agents': {'m': inner_topo},
+                     'div': {'agents': ('agents',)}},
+        'script': [('update', 5)]}
+    ex = worlds.execute(spec)
+    if ex.error:
+        acc.violate(fw.violation(
+            'C04.crash', 'swap:' + sched.crash_fp(ex),
+            f'{job}: unexpected {ex.error[2]!r}', case))
+        return
+    seen_agents = set()
+    for (T, data, snap) in worlds.history_rows(ex):
+        for name, node in (snap.get('agents') or {}).items():
+            seen_agents.add(name)
+            if not isinstance(node, dict) or 'a' not in node:
+                continue
+            if {node['a'], node['b']} != {'A', 'B'}:
+                acc.violate(fw.violation(
+                    'C04.snapshot', 'layer-steps-see-different-state',
+                    f'{job}: at t={T} agent {name} holds (a, b) = '
+                    f'({node["a"]}, {node["b"]}): the two swapping steps '
+                    f'of one layer did not read the same state', case))
+                return
+    want = {'divide': {'m', 'm0', 'm1'}, 'generate': {'m', 'g'},
+            'none': {'m'}}[via]
+    if seen_agents != want:
+        acc.violate(fw.violation(
+            'C04.snapshot', 'swap-world-vacuous',
+            f'{job}: agents seen {sorted(seen_agents)}', case))
 
 
 # ----------------------------------------------------------------------
@@ -496,6 +642,8 @@ def jobs(ctx):
                 for sc in scripts[:2] if ctx.quick else scripts:
                     out.append((tss, n_steps, sc, gate))
     out += migrate_jobs(ctx)
+    out += kill_jobs(ctx)
+    out += swap_jobs(ctx)
     return out
 
 
@@ -505,7 +653,12 @@ def run(ctx):
 
 def replay(case):
     acc = fw.Acc()
-    if case.get('family') == 'migrate':
+    if case.get('family') == 'swap':
+        j = case['job']
+        run_swap((j[0], tuple(j[1]), j[2], j[3]), acc)
+    elif case.get('family') == 'kill':
+        run_kill_perm(tuple(case['job']), acc)
+    elif case.get('family') == 'migrate':
         run_migrate(tuple(case['job']), acc)
     else:
         gate = case.get('gate')
